@@ -1,4 +1,4 @@
-import PPLV.PolyOps.Lattice
+import PPLV.PolyOps.GenImage
 import PPLV.Lin.Parse
 
 /-!
@@ -116,6 +116,19 @@ def semCheck (r : Poly) (ex : RefPoly) : Option String :=
     | some a, none => some a
     | none, b => b
 
+/-- executable `Poly.WF` (PPLV/PolyOps/Sem.lean): the hypotheses of the operator theorems on a real state -/
+def genWFB (nnc : Bool) (n : Nat) (r : Row) : Bool :=
+  r.cf.length == n && decide (0 ≤ r.b) && decide (0 ≤ r.eps) && (!r.eq || r.b == 0) && (!(r.b == 0) || r.eps == 0) &&
+    (nnc || r.eps == 0)
+def isPointB (nnc : Bool) (r : Row) : Bool := !r.eq && decide (0 < r.b) && (!nnc || decide (0 < r.eps))
+def wfB (p : Poly) : Bool :=
+  (p.st.empty || !p.st.cUp || p.cs.rows.all fun r => r.cf.length == p.dim) &&
+  (p.st.empty || !p.st.gUp || p.gs.rows.all (genWFB p.nnc p.dim)) &&
+  (p.st.empty || !p.st.gUp || p.gs.rows.any (isPointB p.nnc)) &&
+  (!p.st.cPend || (p.st.cUp && p.st.gUp)) && (!p.st.gPend || (p.st.cUp && p.st.gUp)) &&
+  !(p.st.cPend && p.st.gPend) &&
+  (p.st.empty || p.dim == 0 || p.st.cUp || p.st.gUp) && (p.dim != 0 || (!p.st.cUp && !p.st.gUp))
+
 structure Case where
   id : String
   op : String
@@ -162,6 +175,13 @@ def runModel (c : Case) : Option Poly × Option RefPoly × Bool :=
       let vn := tokNat v; let dn := tokInt d
       if c.op == "affine_image" then (x.affine_image vn e dn, rx.map (·.affineImage vn e dn), false)
       else (x.affine_preimage vn e dn, rx.map (·.affinePreimage vn e dn), false)
+    | _ => (none, none, false)
+  | "gen_affine_image" =>
+    match c.args with
+    | v :: rel :: d :: rest =>
+      let (e, _) := parseExpr x.dim rest
+      let vn := tokNat v; let dn := tokInt d; let r := parseRel rel
+      (x.generalized_affine_image vn r e dn, rx.map (·.genAffineImage vn r e dn), false)
     | _ => (none, none, false)
   | "embed" => let m := tokNat (c.args.getD 0 "0")
     (some (x.add_space_dimensions_and_embed m), rx.map (·.addDimsEmbed m), false)
@@ -260,6 +280,9 @@ def processLine (line : String) (maxRows : Nat) : IO Unit := do
     match c.r with
     | none => IO.println s!"MISMATCH {c.id} exc {c.op} threw {c.exc} on valid arguments"
     | some r =>
+      if !(wfB c.x && (match c.y with | some y => wfB y | none => true) && wfB r) then
+        IO.println s!"MISMATCH {c.id} hyp {c.op} a real state violates Poly.WF (x={wfB c.x} r={wfB r})"
+      else
       let (q, ex, setOK) := runModel c
       let pre := s!"pre={stStr c.x.st} post={stStr r.st} dim={c.x.dim} nnc={if c.nnc then 1 else 0}"
       -- 1. rows
